@@ -529,6 +529,36 @@ def _d8_parking(ctx):
                 ck.expect(under_conc or with_stop, 'C13-D8', m.qual, 'self.%s.set() only under a non-zero concurrency or with a stop' % ev,
                           'the un-pause event is set although the concurrency may be 0: with no worker to wait for, the supervisor loop '
                           'calls wait() on a set event over and over without ever suspending, and the event loop is blocked', m.loc(c))
+    # (b') a pipeline that is started (again) with concurrency 0 must find the event cleared: stop() leaves it set
+    for m in pl.methods.values():
+        for st in F.assigned_attrs(m.node, '_state'):
+            if not (isinstance(st, ast.Assign) and norm_text(st.value) == 'PipelineState.running'):
+                continue
+            cfg = ctx.cfg(m)
+            nodes = [n for n in cfg.stmt_nodes() if n.stmt is st]
+
+            def conc_false(a, b, k):
+                if not F.normal(a, b, k):
+                    return False
+                if a.kind == 'if' and k in ('T', 'F'):
+                    t = a.stmt.test
+                    neg = False
+                    while isinstance(t, ast.UnaryOp) and isinstance(t.op, ast.Not):
+                        neg, t = not neg, t.operand
+                    if same_bool(t, 'self._concurrency') or same_bool(t, 'self._concurrency > 0'):
+                        truth = neg            # value of the whole test when the concurrency is 0
+                        return (k == 'T') == truth
+                return True
+            okclr = bool(nodes)
+            for n in nodes:
+                nxt = [w for w in walk_no_nested(m.node) if isinstance(w, ast.While)]
+                goal = [x for x in cfg.nodes if x.kind == 'while'] or [cfg.exit]
+                p = cfg.find_path(n, lambda x: x in goal or x is cfg.exit, edge_ok=conc_false, stop=lambda x: any(
+                    isinstance(c.func, ast.Attribute) and c.func.attr == 'clear' and U.is_self_attr(c.func.value, ev) for c in F.node_calls(x)))
+                okclr = okclr and p is None
+            ck.expect(okclr, 'C13-D8', m.qual, 'started with concurrency 0 -> self.%s.clear() before the supervisor loop' % ev,
+                      'a pipeline that is run again after a stop (which leaves the un-pause event set) with the concurrency at 0 spins in its '
+                      'supervisor loop without suspending', m.loc(st))
     # (c) the producer at shutdown
     sd = [m for m in pl.methods.values() if any(norm_text(y) == 'yield from self._producer_task' for y in walk_no_nested(m.node) if isinstance(y, ast.YieldFrom))]
     if len(sd) != 1:
